@@ -15,28 +15,19 @@
 pub use bitcoin::secp256k1::ffi as sffi;
 use sffi::types::{c_int, c_uchar, c_uint, size_t};
 
-pub unsafe fn model_ec_pubkey_cmp(_cx: *const sffi::Context, a: *const sffi::PublicKey, b: *const sffi::PublicKey) -> c_int {
-    let x = (*a).underlying_bytes();
-    let y = (*b).underlying_bytes();
-    let mut i = 0;
-    while i < 64 {
-        if x[i] < y[i] { return -1; }
-        if x[i] > y[i] { return 1; }
-        i += 1;
-    }
+/// loop-free lexicographic comparison of two 64-byte arrays (so that harnesses can keep a small unwind bound)
+fn cmp64(x: &[u8; 64], y: &[u8; 64]) -> c_int {
+    macro_rules! w { ($a:ident, $i:expr) => { u64::from_be_bytes([$a[$i], $a[$i+1], $a[$i+2], $a[$i+3], $a[$i+4], $a[$i+5], $a[$i+6], $a[$i+7]]) }; }
+    macro_rules! step { ($i:expr) => { let (p, q) = (w!(x, $i), w!(y, $i)); if p < q { return -1; } if p > q { return 1; } }; }
+    step!(0); step!(8); step!(16); step!(24); step!(32); step!(40); step!(48); step!(56);
     0
+}
+pub unsafe fn model_ec_pubkey_cmp(_cx: *const sffi::Context, a: *const sffi::PublicKey, b: *const sffi::PublicKey) -> c_int {
+    cmp64(&(*a).underlying_bytes(), &(*b).underlying_bytes())
 }
 
 pub unsafe fn model_xonly_pubkey_cmp(_cx: *const sffi::Context, a: *const sffi::XOnlyPublicKey, b: *const sffi::XOnlyPublicKey) -> c_int {
-    let x = (*a).underlying_bytes();
-    let y = (*b).underlying_bytes();
-    let mut i = 0;
-    while i < 64 {
-        if x[i] < y[i] { return -1; }
-        if x[i] > y[i] { return 1; }
-        i += 1;
-    }
-    0
+    cmp64(&(*a).underlying_bytes(), &(*b).underlying_bytes())
 }
 
 /// opaque form = [prefix, x(32), 0 ...]
